@@ -549,6 +549,47 @@ func main() {
 		})
 	}
 
+	// what the controller said earlier: one client first asks GetDevice (answered with firmware version
+	// 6.62 / 6.99 / 8.92 / 0.00 / ff.ff) and GetStatus (answered with a v6.62 status, protocol id 0x19), then
+	// every operation is answered with its baseline reply and each field's boundary patterns - a reply
+	// means what the protocol says, whatever an earlier reply reported
+	{
+		devOp, statusOp := spec.OpByName("GetDevice"), spec.OpByName("GetStatus")
+		versions := []uint16{0x0662, 0x0699, 0x0892, 0x0000, 0xffff}
+		vk.Parallel(len(versions), func(i int) {
+			c := newClient()
+			dv := ops.BaselineReply(devOp)
+			dv["Version"] = versions[i]
+			check(r, c, devOp, ops.EchoArgs(devOp, dv), spec.EncodeReply(devOp, serial, dv))
+			st := spec.EncodeReply(statusOp, serial, ops.BaselineReply(statusOp))
+			st[0] = 0x19
+			c.reply = st
+			ops.Invoke(c.u, "GetStatus", serial, ops.Baseline(statusOp))
+			var n int64 = 2
+			for k := range spec.Ops {
+				op := &spec.Ops[k]
+				if op.NoReply || op.Broadcast {
+					continue
+				}
+				base := ops.BaselineReply(op)
+				args := ops.EchoArgs(op, base)
+				valid := spec.EncodeReply(op, serial, base)
+				check(r, c, op, args, valid)
+				n++
+				for _, f := range op.Reply {
+					for _, pat := range patterns(f) {
+						b := append([]byte{}, valid...)
+						copy(b[f.Off:], pat)
+						check(r, c, op, args, b)
+						n++
+					}
+				}
+			}
+			r.Count(n)
+			distinct.Add(n)
+		})
+	}
+
 	// request echoes: a set-time reply that repeats (or differs by a second or a day from) the wall
 	// clock the caller asked for, the request time being held in each of 7 Locations - the result is
 	// the decoding of the reply, whatever the request was
